@@ -1044,4 +1044,43 @@ Proof.
       rewrite IH. destruct (run sta r). cbn. reflexivity.
 Qed.
 
+(* a replica that takes a snapshot after es1, restarts from it and applies es2 *)
+Definition restart_run (cap : N) (s0 : S) (es1 es2 : list entry) : option (state * list outcome) :=
+  match snapshot sm_save (run_state (init_state cap s0) es1) with
+  | Some (sn, _) =>
+    match restore sm_recover sn with
+    | Some st' => Some (fst (run st' es2), snd (run (init_state cap s0) es1) ++ snd (run st' es2))
+    | None => None
+    end
+  | None => None
+  end.
+
+(* ... is indistinguishable from a replica that never restarted; hence replicas
+   that snapshot/restart at different points of the same log agree on every
+   result, on the session table and on the user state *)
+Lemma replicas_agree_proved : forall cap (s0 : S) es1 es2 es1' es2',
+  0 < cap -> es1 ++ es2 = es1' ++ es2' ->
+  restart_run cap s0 es1 es2 = Some (run (init_state cap s0) (es1 ++ es2)) /\
+  restart_run cap s0 es1 es2 = restart_run cap s0 es1' es2'.
+Proof.
+  assert (A : forall cap s0 es1 es2, 0 < cap ->
+              restart_run cap s0 es1 es2 = Some (run (init_state cap s0) (es1 ++ es2))).
+  { intros cap s0 es1 es2 POS. unfold restart_run.
+    destruct (snapshot_cut_equiv_sessions_proved cap s0 es1 es2 POS) as (sn & H1 & st1' & H2 & _ & H4).
+    rewrite H1, H2, H4. reflexivity. }
+  intros cap s0 es1 es2 es1' es2' POS E. split; [now apply A|].
+  rewrite !A by auto. now rewrite E.
+Qed.
+
 End SessionProofs.
+
+(* the comparison operators of Session.hasResponded / clearTo and of the LRU's
+   ShouldEvict, re-read from the source on every run (Gen/GenC05.v), are the ones
+   the model is written with; a change of any of them breaks this lemma *)
+Lemma source_tie_proved :
+  src_has_responded_le = true /\ src_clear_to_guard_le = true /\ src_clear_to_shortcut_eq = true /\
+  src_clear_to_loop_le = true /\ src_evict_when_gt = true /\
+  not_session_managed_client_id = 0 /\ noop_series_id = 0 /\ series_id_first_proposal = 1 /\
+  series_id_for_register = 2 ^ 64 - 2 /\ series_id_for_unregister = 2 ^ 64 - 1 /\
+  0 < lru_max_session_count.
+Proof. repeat split; reflexivity. Qed.
